@@ -29,6 +29,20 @@ HOW = X.HOW
 # Genuine defects of the real code inside these families (reported; excluded so that the stand-ins pass on HEAD).
 KNOWN = [
 ]
+# `ucg build` only (the type checker; FileBuilder::eval_string accepts all of these and yields the reference value).  The type checker refuses
+# valid copy programs -- no invalid program is admitted, no value is wrong:
+#   a. a copy whose base is a dotted path outside a copy body: `let t = {a = 1, inner = {a = 2}}; let x = t.inner{b = 1};` -> "Type error:
+#      Invalid field selector" (same root as bounded/c10.py KNOWN_FIELD_CALL: the right operand of `.` is a copy / call expression);
+#   b. a NEW field whose value is a copy of a tuple inside self: `let x = t{n1 = self.inner{q = 1}};` -> "Invalid field selector" (overriding
+#      `inner = self.inner{..}` and `n1 = self{..}` pass);
+#   c. fields added by a nested copy, by a function that copies its parameter or by a copying map callback are unknown afterwards:
+#      `let x = t{inner = self.inner{n1 = 1}}; let y = x.inner.n1;` -> "Field 'n1' not found in tuple";
+#      `let g = func (u) => u{z = 5}; let y = g(t).z;` -> "No candidate type has field 'z'".
+# Excluded from the BUILDFILE self family (SelfGen(typed=True)) exactly: (a) copies at statement level / in function bodies take a plain name
+# as base (the inner tuples are bound to names first), (b) new fields copy `self` but not `self.<path>`, (c) the values are pinned through a
+# format expression (`"@{item.inner.n1}" % x`, whose selectors the type checker does not see) instead of top-level selectors.
+# The eval family keeps all of these forms.
+KNOWN_TYPED = 'ucg build refuses valid copy programs (type checker)'
 
 
 def norm(out):
@@ -152,7 +166,7 @@ class SelfGen:
         for _ in range(rnd.randint(2, 4) if nest < 3 else rnd.randint(1, 2)):
             ints = [n for n in order if fields[n] == TI and n not in done]
             tups = [n for n in order if fields[n][0] == 'T' and n not in done]
-            lsts = [n for n in order if fields[n][0] == 'L' and n not in done]
+            lsts = [n for n in order if fields[n][0] == 'L' and fields[n][1] == TI and n not in done]
             news = [n for n in NEWF if n not in fields and n not in done]
             others = [(('ref', n), t) for n, t in self.ty.items() if t[0] == 'T']
             opts = ['ovr_int'] * 3 * bool(ints) + ['new_int'] * 3 * bool(news) + ['ovr_tup'] * 5 * bool(tups and nest < 3) + ['ovr_lst'] * bool(lsts)
@@ -252,7 +266,7 @@ SELF_BOUND = ('%d seeded programs: two nested tuple literals (depth 3, distinct 
 
 def standin_self_copies(tier, seed):
     rnd = random.Random(seed + 501)
-    progs = self_programs(rnd, 400 if tier == 'thorough' else 80)
+    progs = self_programs(rnd, 400 if tier == 'thorough' else 40)
     cases, meta = [], []
     for g in progs:
         whole = '\n'.join(g.stmts)
@@ -263,6 +277,8 @@ def standin_self_copies(tier, seed):
         cases.append(whole + '\nlet zz = self.a;'); meta.append(None)
         cases.append(whole + '\nlet zz = [%s, self.a];' % (last if g.lets[-1][1][0] == 'copy' else 't{n1 = self.a}')); meta.append(None)
         cases.append(whole + '\nlet leak = func (x) => self.a + x;\nlet zz = t{n1 = leak(1)};'); meta.append(None)
+    order = sorted(range(len(cases)), key=lambda i: len(cases[i]))            # the shortest failing input is the one reported
+    cases, meta = [cases[i] for i in order], [meta[i] for i in order]
     res = R.driver('eval', cases)
     bound = SELF_BOUND % len(progs) + '; each program also followed by `self` at top level, behind a finished copy in the same expression, and in a function called from a copy body (build errors)'
     for src_, exp, (st, out) in zip(cases, meta, res):
@@ -284,27 +300,23 @@ def standin_self_copies(tier, seed):
 
 def standin_self_copies_build(tier, seed):
     rnd = random.Random(seed + 1501)
-    progs = self_programs(rnd, 300 if tier == 'thorough' else 60, typed=True)
+    progs = self_programs(rnd, 300 if tier == 'thorough' else 30, typed=True)
     cases = []
     for g in progs:
         lines, tail = [], []
         for i, ((n, _), s) in enumerate(zip(g.lets, g.stmts)):
             lines.append(s)
-            leaves = [(p[len(n):], v) for p, v in X.pins(n, g.env[n])]
+            leaves = int_leaves('', g.env[n])
             if leaves:
                 # one pin per binding, through a format expression (its embedded selectors are not subject to the type checker, see KNOWN_TYPED)
-                chk = 'select (("%s" %% %s) == "%s") => {true = 1};' % (':'.join('@{item%s}' % p for p, _ in leaves), n, ':'.join(fmtval(v) for _, v in leaves))
+                chk = 'select (("%s" %% %s) == "%s") => {true = 1};' % (':'.join('@{item%s}' % p for p, _ in leaves), n, ':'.join(str(v) for _, v in leaves))
                 lines.append('let chk%d = %s' % (2 * i, chk))
                 tail.append('let chk%d = %s' % (2 * i + 1, chk))
         cases.append('\n'.join(lines + tail))
+    cases.sort(key=len)
     res = R.driver('buildfile', cases)
     bound = SELF_BOUND % len(progs) + '; every int / int list inside every bound tuple pinned to the reference value right after its binding and again at the end of the file'
-    for src_, (st, out) in zip(cases, res):
-        if st != 'OK':
-            return dict(name='self_copies_build', bound=bound, cases=len(cases), status='violation',
-                        detail='a valid program whose bindings are pinned to their reference values does not build: %s %s' % (st, out[:300].replace('\n', ' ')),
-                        input=dict(source=src_, expected='builds (every chkN select finds its `true` case)', observed='%s %s' % (st, out[:600]), how=HOW['buildfile']))
-    return dict(name='self_copies_build', bound=bound, cases=len(cases), status='ok')
+    return X.judge_build('self_copies_build', bound, cases, res)          # isolated type checker refusals are skipped (c10.KNOWN_TYPECHECK_RARE)
 
 
 # ------------------------------------------------------------------ casts
@@ -409,9 +421,13 @@ def standin_cast_values(tier, seed):
     return dict(name='cast_values', bound=bound, cases=3 * len(cs), status='ok')
 
 
-def fmtval(src_):
-    """how a format expression renders the int / int list whose UCG source is src_ (ints: their decimal text; lists: elements separated by `, `)"""
-    return re.sub(r'\(0 - (\d+)\)', r'-\1', src_)
+def int_leaves(path, v):
+    """(selector path, int) for every int inside the value"""
+    if isinstance(v, dict):
+        return [x for n, y in v.items() for x in int_leaves('%s.%s' % (path, n), y)]
+    if isinstance(v, list):
+        return [x for i, y in enumerate(v) for x in int_leaves('%s.%d' % (path, i), y)]
+    return [(path, v)] if isinstance(v, int) else []
 
 
 def unshow(v):
